@@ -152,10 +152,10 @@ def run(ctx):
         jobs.append(('importidiom:' + k, main, pos, QUERIES, files))
     ctx.coverage['import_graph_programs'] = nimp
     ctx.coverage['import_idioms'] = len(IMPORT_IDIOMS)
-    fam_ns = [2, 4, 8, 16, 32] if quick else [2, 4, 8, 16, 32, 64]
+    fam_ns = [2, 4, 8, 16, 32, 64] if quick else [2, 4, 8, 16, 32, 48, 64, 96]
     for fam in FAMILIES:
         for n in fam_ns:
-            if fam == 'call_tree' and n > 32:
+            if fam == 'call_tree' and n > (16 if quick else 32):
                 continue
             src = family(fam, n)
             jobs.append(('family:%s:%d' % (fam, n), src, last_positions(src)[:1], ['infer', 'goto']))
